@@ -110,10 +110,17 @@ theorem plainError_ctx (c : Conn) : CtxSame c c.plainError.1 := by
 theorem dbapiError_ctx (c : Conn) (k : FKind) : CtxSame c (c.dbapiError k).1 := by
   unfold Conn.dbapiError
   split
-  · exact discError_ctx c
-  · cases k with
-    | disc => exact discError_ctx c
-    | err => exact plainError_ctx c
+  · unfold Conn.kbiError
+    simp only []
+    split
+    · exact CtxSame.refl c
+    · exact ctxSame_of_eq rfl rfl
+  · split
+    · exact discError_ctx c
+    · cases k with
+      | disc => exact discError_ctx c
+      | err => exact plainError_ctx c
+      | kbi => exact plainError_ctx c
 
 theorem dbapiCall_ctx (c : Conn) (p : FPoint) (f : DB → DB) : CtxSame c (c.dbapiCall p f).1 := by
   unfold Conn.dbapiCall
